@@ -222,6 +222,10 @@ mech("hex-decode-error-swallowed",
  "bytes_encoding=HEX decoder ignores a hex decoding error and lets protojson base64-decode the same text: the handler receives bytes the client never sent",
  [("C11","malformed/server/bytes_hex/*",["body-leaf-altered"],None)])
 
+mech("binary-body-cut-short-tolerated",
+ "the emitted binary-body binder ignores io.ErrUnexpectedEOF from reading the request body (the JSON binder does not): an upload that ends before its declared Content-Length is decoded from what arrived and dispatched",
+ [("C11","malformed/server/*@proto-valid/cut-short-of-declared-length",["dispatched-undecodable-body","status"],None)])
+
 mech("oneof-discriminator-errorf-vet",
  "*_oneof_discriminator.pb.go formats an error twice (fmt.Errorf with %w but no argument): fails the printf vet check that `go test` runs, and the message shows %!w(MISSING)/EXTRA noise",
  [("C13","gobuild/*",["vet"],"_oneof_discriminator.pb.go: fmt.Errorf call needs*")])
